@@ -87,6 +87,8 @@ def build(pool=None, tag='core', shards=16, force=False):
     pool = pool if pool is not None else nopgen.core_pool()
     srcs = [os.path.join(VERIF, 'harness', 'glue.h'), os.path.join(VERIF, 'harness', 'prim.cpp'), os.path.join(VERIF, 'harness', 'objs.cpp'), os.path.join(VERIF, 'harness', 'thr.cpp'), os.path.join(VERIF, 'tools', 'nopgen.py'), os.path.join(VERIF, 'tools', 'rpcgen.py'),
             os.path.abspath(__file__), os.path.join(VERIF, 'tools', 'common.py')]
+    if COVERAGE:
+        tag = tag + '-cov'
     key = sha_files(srcs + tree_files(os.path.join(REPO, 'include')), extra=tag + '|'.join(nopgen.desc(t) for t in pool))
     out = os.path.join(BUILD, 'h-%s-%s' % (tag, key))
     exe = os.path.join(out, 'harness')
@@ -179,7 +181,7 @@ def build(pool=None, tag='core', shards=16, force=False):
 
     def cc_thr(_):
         src = os.path.join(VERIF, 'harness', 'thr.cpp')
-        r = run([CXX, '-std=c++14', '-O1', '-g1', '-fsanitize=thread', '-fno-omit-frame-pointer', '-I' + os.path.join(REPO, 'include'),
+        r = run([CXX, '-std=c++14', '-O1', '-g1'] + TSANFLAGS + ['-fno-omit-frame-pointer', '-I' + os.path.join(REPO, 'include'),
                  src, '-o', os.path.join(out, 'thr'), '-pthread'], timeout=1200)
         return src, r
 
@@ -204,7 +206,7 @@ def build(pool=None, tag='core', shards=16, force=False):
         p, r = bad[0]
         sys.stderr.write('COMPILE FAILED %s\n%s\n' % (p, r.stderr[-6000:]))
         raise SystemExit(3)
-    r = run([CXX] + ['-fsanitize=address,undefined'] + [p[:-4] + '.o' for p in files] + ['-o', exe], timeout=600)
+    r = run([CXX] + ([f for f in SANFLAGS if f != '-fno-sanitize-recover=all']) + [p[:-4] + '.o' for p in files] + ['-o', exe], timeout=600)
     if r.returncode != 0:
         sys.stderr.write('LINK FAILED\n' + r.stderr[-4000:])
         raise SystemExit(3)
